@@ -104,6 +104,7 @@ def fault_lines(exe, base, rnd):
         outs += ch[0]
     lines = []
     total = 0
+    fault_lines.nofault = dict(zip(base, outs))      # the implementation's own fault-free answer per scenario
     for l, o in zip(base, outs):
         lg = ledger_of(o)
         N = lg[2] if lg else 0
